@@ -3,6 +3,7 @@ package main
 import (
 	"encoding/json"
 	"fmt"
+	"strings"
 	"time"
 
 	"verif/harness/internal/core"
@@ -96,6 +97,58 @@ func checkC10(c *core.Ctx) []core.Floor {
 			items = append(items, c10Item{n: t, text: model.RenderN(t, st), tag: tags[i]})
 		}
 	}
+	// what a text parses to must not depend on what was parsed before it: a
+	// statement S, then S with one of its tokens continued by a character
+	// (1 -> 12, t -> t2, name -> namex: the two texts agree up to the END of a
+	// token), then an unrelated statement, then the second text again - the
+	// two parses of the second text must be the same
+	{
+		npairs := n / 8
+		var seqs [][]string
+		for i := 0; i < npairs && i < len(trees); i++ {
+			base := model.RenderN(trees[(i*7)%len(trees)], model.Plain)
+			toks := strings.Fields(base)
+			if len(toks) < 2 || len(base) > 600 {
+				continue
+			}
+			k := r.Intn(len(toks))
+			if r.Bool() {
+				k = len(toks) - 1
+			}
+			t2 := append([]string(nil), toks...)
+			t2[k] += []string{"2", "x", "0", "_", "="}[r.Intn(5)]
+			seqs = append(seqs, []string{strings.Join(toks, " "), strings.Join(t2, " "), "select 1", strings.Join(t2, " ")})
+		}
+		core.ParallelFor((len(seqs)+199)/200, c.Workers, func(ci int) {
+			lo, hi := ci*200, (ci+1)*200
+			if hi > len(seqs) {
+				hi = len(seqs)
+			}
+			dir := c.CaseDir("c10p")
+			defer removeAll(dir)
+			var s script
+			for _, q := range seqs[lo:hi] {
+				for _, t := range q {
+					s.add(proto.Op{K: "parse", SQL: proto.Text(t)})
+				}
+			}
+			out := core.RunScript(drv, dir, s.ops, 120*time.Second)
+			for k := 0; k+3 < len(out.Res); k += 4 {
+				a, b := &out.Res[k+1], &out.Res[k+3]
+				q := seqs[lo+k/4]
+				if a.Panic != "" || b.Panic != "" {
+					c.Violation("C10:panic:"+a.Frame+b.Frame, "parser panicked: "+a.Panic+b.Panic+"\n"+q[1], map[string]interface{}{"texts_in_order": q})
+					continue
+				}
+				if a.Err != b.Err || string(a.Raw) != string(b.Raw) {
+					c.Violation("C10:parse-depends-on-the-statement-parsed-before", fmt.Sprintf("the same text parsed differently after %q than after %q:\n%s\nfirst:  %s %s\nsecond: %s %s", q[0], q[2], q[1], a.Err, clip(string(a.Raw), 400), b.Err, clip(string(b.Raw), 400)),
+						map[string]interface{}{"texts_in_order": q})
+					continue
+				}
+				c.Count("texts_parsed_twice_after_different_predecessors", 1)
+			}
+		})
+	}
 	chunk := 2000
 	nChunks := (len(items) + chunk - 1) / chunk
 	core.ParallelFor(nChunks, c.Workers, func(ci int) {
@@ -123,7 +176,7 @@ func checkC10(c *core.Ctx) []core.Floor {
 		}
 	})
 	c.Sample(4, map[string]interface{}{"tree": trees[len(trees)-1], "renderings": []string{items[len(items)-4].text, items[len(items)-3].text, items[len(items)-2].text, items[len(items)-1].text}})
-	return []core.Floor{{Key: "parsed_equal", Min: 5000}, {Key: "boolean_shapes_enumerated", Min: 93}, {Key: "list_select_ge3", Min: 20}, {Key: "list_values_rows_ge3", Min: 20}, {Key: "list_set_ge3", Min: 20}, {Key: "list_group_ge2", Min: 20}, {Key: "list_order_ge3", Min: 20}, {Key: "list_defs_ge3", Min: 20}, {Key: "statements_longer_than_1024_bytes", Min: 100}, {Key: "whitespace_twin_statements", Min: 100}, {Key: "statements_with_a_token_longer_than_a_read_buffer", Min: 50}}
+	return []core.Floor{{Key: "parsed_equal", Min: 5000}, {Key: "boolean_shapes_enumerated", Min: 93}, {Key: "list_select_ge3", Min: 20}, {Key: "list_values_rows_ge3", Min: 20}, {Key: "list_set_ge3", Min: 20}, {Key: "list_group_ge2", Min: 20}, {Key: "list_order_ge3", Min: 20}, {Key: "list_defs_ge3", Min: 20}, {Key: "statements_longer_than_1024_bytes", Min: 100}, {Key: "whitespace_twin_statements", Min: 100}, {Key: "texts_parsed_twice_after_different_predecessors", Min: 200}, {Key: "statements_with_a_token_longer_than_a_read_buffer", Min: 50}}
 }
 
 func condPreds(cn *proto.Cond) int {
